@@ -123,6 +123,17 @@ def _worker_init(environ: dict, syspath: list[str]) -> None:
     sys.dont_write_bytecode = True
 
 
+def _library_frame(e: BaseException, repo: str) -> str | None:
+    """'module.function' of the innermost traceback frame that lies in the library under test, or None."""
+    root = str(Path(repo).resolve()) + os.sep
+    site = None
+    for fs in traceback.extract_tb(e.__traceback__):
+        fn = str(Path(fs.filename).resolve()) if fs.filename and not fs.filename.startswith("<") else ""
+        if fn.startswith(root + "sigpyproc"):
+            site = f"{Path(fn).stem}.{fs.name}"
+    return site
+
+
 def _run_shard(modname: str, shard: Any, ctx: Ctx, only: Any = None) -> dict:
     import shutil
 
@@ -134,8 +145,20 @@ def _run_shard(modname: str, shard: Any, ctx: Ctx, only: Any = None) -> dict:
         out = res.__dict__.copy()
         out["_wall"] = time.time() - t0
         return out
-    except BaseException:  # noqa: BLE001
-        return {"_error": traceback.format_exc(), "_shard": repr(shard)[:500]}
+    except BaseException as e:  # noqa: BLE001
+        tb = traceback.format_exc()
+        site = _library_frame(e, ctx.repo)
+        if site is not None and isinstance(e, Exception):
+            # the exception comes out of the library under test and no oracle of the check was prepared for it: that is a finding about the
+            # library (on the unchanged tree no check lets one escape), not a defect of the harness
+            res = ShardResult()
+            res.evaluations += 1
+            res.violation({"site": site, "symptom": f"raised {type(e).__name__} (not anticipated by any oracle of the check)"},
+                          {"shard": shard, "inner": only, "no_reproduce": True}, tb[-1500:])
+            out = res.__dict__.copy()
+            out["_wall"] = time.time() - t0
+            return out
+        return {"_error": tb, "_shard": repr(shard)[:500]}
     finally:
         # remove per-process scratch dirs eagerly (tmpfs is finite)
         root = Path(ctx.scratch)
